@@ -519,6 +519,15 @@ def rule_token_errors(prog):
                     out.add(b["d"], "Token{range: .., ..old} also relocates `errors`", eo != ("copy", "errors"), c.loc(s["sp"]),
                             "the token is rebuilt with a moved range but its lexical errors (which carry absolute byte ranges) are "
                             "copied unchanged from the old token")
+            # ... or put together by the constructor: `Token::new_with_errors(token_type, range.shift(n), errors.shift(n))`
+            for call in hir.nodes(b["body"], "Call"):
+                if (hir.callee_display(call) or "") == "tokens::Token::new_with_errors" and len(call["args"]) == 3:
+                    ro, eo = origin(call["args"][1]), origin(call["args"][2])
+                    if ro == ("moved", "range"):
+                        n += 1
+                        out.add(b["d"], "Token{range: .., ..old} also relocates `errors`", eo != ("copy", "errors"), c.loc(call["sp"]),
+                                "the token is rebuilt with a moved range but its lexical errors (which carry absolute byte ranges) are "
+                                "handed to the constructor unchanged")
         # field-assignment form: `tok.range = ..` without `tok.errors = ..` in the same function
         assigns = {}
         for a in hir.nodes(b["body"], "Assign"):
